@@ -30,3 +30,70 @@ macro_rules! ident_total {
 ident_total!(ident_any_len_any, AnyEndian);
 ident_total!(ident_any_len_le, LittleEndian);
 ident_total!(ident_any_len_be, BigEndian);
+
+/// One NoteIterator step on arbitrary bytes with ANY usize alignment (0, 3, 2^63, usize::MAX, ...): no panic / overflow.
+#[kani::proof]
+#[kani::unwind(6)]
+pub fn note_first_any_align() {
+    let (buf, len) = any_buf::<24>();
+    let align: usize = kani::any();
+    let e = any_endian();
+    let mut it = elf::note::NoteIterator::new(e, any_class(), align, &buf[..len]);
+    let first = it.next();
+    kani::cover!(first.is_some() && align > usize::MAX - 8, "a note parsed with an alignment near usize::MAX");
+    kani::cover!(first.is_some() && align == 3, "a note parsed with alignment 3");
+}
+
+/// GnuHashTable::new + find on arbitrary table bytes, both classes (so nbloom, nshift 0..2^32-1, symoffset are arbitrary):
+/// totality only (soundness/completeness are C11).
+macro_rules! gnu_total {
+    ($name:ident, $class:expr, $t:expr, $s:expr) => {
+        #[kani::proof]
+        #[kani::unwind(7)]
+        pub fn $name() {
+            let tb: [u8; $t] = kani::any();
+            let sb: [u8; $s] = kani::any();
+            let e = any_endian();
+            let symtab: elf::symbol::SymbolTable<'_, AnyEndian> = elf::parse::ParsingTable::new(e, $class, &sb);
+            let rb: [u8; 3] = [kani::any(), kani::any(), 0];
+            let strtab = elf::string_table::StringTable::new(&rb);
+            let q: [u8; 1] = [kani::any()];
+            if let Ok(t) = elf::hash::GnuHashTable::new(e, $class, &tb) {
+                let r = t.find(&q, &symtab, &strtab);
+                kani::cover!(r.is_err() && t.hdr.nshift >= 32, "shift >= 32 reported as an error");
+                kani::cover!(matches!(r, Ok(None)) && t.hdr.nbloom == 0, "nbloom == 0 handled");
+            }
+        }
+    };
+}
+gnu_total!(gnu_find_total_elf64, Class::ELF64, 36, 48);
+gnu_total!(gnu_find_total_elf32, Class::ELF32, 32, 32);
+
+/// SysVHashTable::new + find on arbitrary table bytes: totality.
+#[kani::proof]
+#[kani::unwind(7)]
+pub fn sysv_find_total() {
+    let tb: [u8; 28] = kani::any();
+    let sb: [u8; 32] = kani::any();
+    let e = any_endian();
+    let symtab: elf::symbol::SymbolTable<'_, AnyEndian> = elf::parse::ParsingTable::new(e, Class::ELF32, &sb);
+    let rb: [u8; 3] = [kani::any(), kani::any(), 0];
+    let strtab = elf::string_table::StringTable::new(&rb);
+    let q: [u8; 1] = [kani::any()];
+    if let Ok(t) = elf::hash::SysVHashTable::new(e, Class::ELF32, &tb) {
+        let _ = t.find(&q, &symtab, &strtab);
+    }
+}
+
+/// ParsingTable::get with ANY index on a power-of-two and a non-power-of-two entry size: Ok only inside the table.
+#[kani::proof]
+#[kani::unwind(4)]
+pub fn table_get_any_index() {
+    let b: [u8; 16] = kani::any();
+    let e = any_endian();
+    let i: usize = kani::any();
+    let t: elf::parse::ParsingTable<'_, AnyEndian, u64> = elf::parse::ParsingTable::new(e, Class::ELF64, &b);
+    assert!(t.get(i).is_ok() == (i < 2));
+    let d: elf::dynamic::DynamicTable<'_, AnyEndian> = elf::parse::ParsingTable::new(e, Class::ELF64, &b);
+    assert!(d.get(i).is_ok() == (i < 1));
+}
